@@ -297,6 +297,13 @@ func (c *Ctx) Response(rich bool) *Response {
 	}
 	for i := 0; i < nh; i++ {
 		name := "X-R" + c.SafeName("h", "rhname")
+		// header names are case-insensitive: declare some in non-canonical letter case
+		switch rapid.IntRange(0, 3).Draw(t, "rh_case") {
+		case 0:
+			name = strings.ToLower(name)
+		case 1:
+			name = "X-RH" + strings.ToUpper(c.PlainName("id", "rhupper"))[0:2] + c.PlainName("k", "rhk")
+		}
 		h := &Header{Required: rapid.Bool().Draw(t, "rh_required"), Schema: c.ResponseHeaderSchema()}
 		if rapid.IntRange(0, 3).Draw(t, "rh_component") == 0 && c.Allow("header-component") {
 			cs := c.comps()
@@ -858,4 +865,53 @@ func (c *Ctx) JSONDoc() *Doc {
 	o.Methods = []string{"POST", "PUT", "PATCH", "GET"}
 	o.SchemaDepth = 3
 	return c.Composition(o)
+}
+
+// ---------------------------------------------------------------------------
+// responses family (C02, C10): operations x response sets incl. default, inline /
+// component / alias chains, components shared by several operations and statuses,
+// JSON / raw / no bodies, 0-3 headers (required/optional, primitive/array/$ref,
+// names in non-canonical letter case).
+
+func (c *Ctx) ResponsesDoc() *Doc {
+	t := c.T
+	d := c.Doc
+	// a few component schemas for bodies
+	ns := rapid.IntRange(1, 4).Draw(t, "nschemas")
+	for i := 0; i < ns; i++ {
+		c.AddSchema(c.CompName("Sch", "schema"), c.Schema(2, "component"))
+	}
+	np := rapid.IntRange(2, 4).Draw(t, "npaths")
+	for i := 0; i < np; i++ {
+		segs := []string{c.PlainName("r", "seg")}
+		var params []*Parameter
+		switch rapid.IntRange(0, 3).Draw(t, "path_shape") {
+		case 0:
+			v := c.PlainName("v", "var")
+			segs = append(segs, "{"+v+"}")
+			params = append(params, &Parameter{Name: v, In: "path", Required: true, Schema: &Schema{Type: "string"}})
+		case 1:
+			segs = append(segs, "") // trailing slash: operation name gets the RT suffix
+		}
+		pi := &PathItem{Parameters: params}
+		d.Paths["/"+strings.Join(segs, "/")] = pi
+		nm := rapid.IntRange(1, 2).Draw(t, "nmethods")
+		ms := rapid.SliceOfNDistinct(rapid.SampledFrom([]string{"GET", "POST", "PUT", "DELETE"}), nm, nm, rapid.ID[string]).Draw(t, "methods")
+		for _, m := range ms {
+			op := &Operation{Responses: map[string]*Response{}}
+			if rapid.IntRange(0, 2).Draw(t, "has_opid") == 0 {
+				op.OperationID = c.PlainName("op", "opid")
+			}
+			c.Responses(op, true)
+			pi.SetOp(m, op)
+		}
+	}
+	// the root path with a component response and no operationId (naming edge)
+	if rapid.IntRange(0, 3).Draw(t, "root_path") == 0 {
+		op := &Operation{Responses: map[string]*Response{}}
+		c.Responses(op, true)
+		d.Paths["/"] = &PathItem{Get: op}
+	}
+	// non-canonical header names on some responses
+	return d
 }
